@@ -1275,6 +1275,21 @@ class Irc(IrcCommandDispatcher, log.Firewalled):
 
     def takeMsg(self):
         """Called by the IrcDriver; takes a message to be sent."""
+        # An outFilter that returns None consumes its message and the next
+        # waiting message is tried: in a loop, not by a recursive call (a
+        # long run of dropped messages hit the recursion limit, and the
+        # firewall swallowed the RecursionError together with the message
+        # being processed at that moment).  Every round consumes a message
+        # that was waiting, so this many rounds are enough; the bound only
+        # matters for an outFilter that keeps queuing messages it then drops.
+        for _ in range(len(self.fastqueue) + len(self.queue) + 1):
+            (msg, again) = self._takeMsg()
+            if not again:
+                return msg
+        return None
+
+    def _takeMsg(self):
+        """One round of takeMsg: (message or None, whether to try again)."""
         if not self.callbacks:
             log.critical('No callbacks in %s.', self)
         now = time.time()
@@ -1314,7 +1329,7 @@ class Irc(IrcCommandDispatcher, log.Firewalled):
                 msg = callback.outFilter(self, msg)
                 if msg is None:
                     log.debug('%s.outFilter returned None.', callback.name())
-                    return self.takeMsg()
+                    return (None, True)
                 world.debugFlush()
 
             self._truncateMsg(msg)
@@ -1342,15 +1357,14 @@ class Irc(IrcCommandDispatcher, log.Firewalled):
                 if world.testing:
                     self.state.addMsg(self, msg)
             log.debug('Outgoing message (%s): %s', self.network, str(msg).rstrip('\r\n'))
-            return msg
+            return (msg, False)
         elif self.zombie and not self.queue and not self.fastqueue:
             # We kill the driver here so it doesn't continue to try to
             # take messages from us.  (Only once everything was sent: the
             # throttle or the JOIN rate limit may have held a message back.)
             self.driver.die()
             self._reallyDie()
-        else:
-            return None
+        return (None, False)
 
     def _tagMsg(self, msg):
         """Sets attribute on an incoming IRC message. Will usually only be
